@@ -24,7 +24,8 @@ PROPERTY = "C15"
 
 # "save_user": Save_Iter(info) with the documented optional dict, the SAME dict object updated and handed over at every call (load-loop idiom)
 # "reset0": Set_Iter(0) with NO query afterwards (the queries of "set0" recompute lazily held fields and can mask a state that was not restored)
-OPS = ["solve_a", "solve_b", "save", "save_user", "reset0", "folder0", "folderA", "folderB", "set0", "setlast", "get0", "res0", "replacemesh", "saveload"]
+# "reslast": Result(name, iter=-1) = the results of the LAST stored iteration, wherever the simulation currently stands
+OPS = ["solve_a", "solve_b", "save", "save_user", "reset0", "reslast", "folder0", "folderA", "folderB", "set0", "setlast", "get0", "res0", "replacemesh", "saveload"]
 PREFIXES = {"init": ["save", "solve_a", "save"],  # iteration 0 = the initial state, saved before any solve; iteration 1 solved
             "mem": ["solve_a", "save"], "disk": ["folderA", "solve_a", "save"], "two": ["solve_a", "save", "solve_b", "save"],
             "twomesh": ["solve_a", "save", "replacemesh", "solve_b", "save"],
@@ -118,6 +119,35 @@ class ElasticNewmark(ElasticStatic):
     def setup(self, simu):
         simu.rho = 1.4
         simu.Solver_Set_Hyperbolic_Algorithm(0.1)
+
+
+class ThermalStatic(Scn):
+    """steady-state conduction that can be switched to the parabolic scheme (prefix 'mixed')"""
+    name = "thermal_static"
+    results = ["thermal"]
+    skip_ops = ()
+
+    def build(self, mesh):
+        from EasyFEA import Models, Simulations
+
+        return Simulations.Thermal(mesh, Models.Thermal(k=1.3, c=0.9, thickness=0.7))
+
+    def to_dynamic(self, simu):
+        simu.rho = 1.4
+        simu.Solver_Set_Parabolic_Algorithm(0.1, 0.5)
+
+    def load(self, simu, key, level):
+        simu.Bc_Init()
+        lo, hi = _sides(key)
+        simu.add_dirichlet(lo, [0.0], ["t"])
+        simu.add_dirichlet(hi, [self.levels[level] * 10], ["t"])
+
+    def fields(self, simu):
+        pt = simu.problemType
+        return {f"{pt}.u": np.array(simu._Get_u_n(pt), dtype=float), f"{pt}.v": np.array(simu._Get_v_n(pt), dtype=float)}
+
+    def named(self, simu):
+        return {nm: np.atleast_1d(np.array(simu.Result(nm), dtype=float)) for nm in self.results}
 
 
 class ThermalParabolic(Scn):
@@ -291,7 +321,7 @@ def _wf_k(u, v):
     return u.grad.dot(v.grad)
 
 
-SCENARIOS = {s.name: s for s in (ElasticStatic, ElasticNewmark, ThermalParabolic, BeamStatic, BeamNewmark, PhaseFieldHistory,
+SCENARIOS = {s.name: s for s in (ElasticStatic, ElasticNewmark, ThermalStatic, ThermalParabolic, BeamStatic, BeamNewmark, PhaseFieldHistory,
                                  PhaseFieldHistoryDamage, InElasticScn, HyperScn, WeakFormScn)}
 
 
@@ -568,21 +598,21 @@ def _run(case, scn, tmp):
         elif op == "get0":
             if snaps:
                 simu.Get_results(0)
-        elif op == "res0":
+        elif op in ("res0", "reslast"):
             if not snaps:
                 return out
-            s = snaps[0]
+            it = 0 if op == "res0" else -1
+            s = snaps[it]
             for name in s["named"]:
                 try:
-                    r = np.atleast_1d(np.array(simu.Result(name, nodeValues=False) if name not in ("damage", "thermal", "thermalDot", "u", "displacement_norm")
-                                               else simu.Result(name, iter=0), dtype=float))
-                    r = np.atleast_1d(np.array(simu.Result(name, nodeValues=(name in ("damage", "thermal", "thermalDot", "u", "displacement_norm", "Wdef", "Psi_Crack")), iter=0), dtype=float))
+                    r = np.atleast_1d(np.array(simu.Result(name, nodeValues=(name in ("damage", "thermal", "thermalDot", "u", "displacement_norm", "Wdef", "Psi_Crack")), iter=it), dtype=float))
                 except Exception as err:
-                    out.append(viol("result_iter_raises", f"after {done}: Result({name!r}, iter=0) raised {type(err).__name__}: {err}", result=name, **kk))
+                    out.append(viol("result_iter_raises", f"after {done}: Result({name!r}, iter={it}) raised {type(err).__name__}: {err}", result=name, **kk))
                     continue
                 if not _eq(r, s["named"][name], 1e-10):
-                    out.append(viol("result_iter", f"after {done}: Result({name!r}, iter=0) differs from the value obtained when iteration 0 was saved", result=name, **kk))
+                    out.append(viol("result_iter", f"after {done}: Result({name!r}, iter={it}) differs from the value obtained when that iteration was saved", result=name, **kk))
             nrestore += 1
+            pending[0] = (len(snaps) - 1) if it == -1 else 0
             key = s["mesh"]
         elif op == "replacemesh":
             key = scn.mesh1 if key == scn.mesh0 else scn.mesh0
